@@ -302,3 +302,6 @@ def extra(ctx, cov):
         f.write("".join("# " + l + "\n" for l in err.split("\n")[:60]))
         f.write(lines[k] + "\n")
     return [("asan: %s | %s" % (lines[k][:200], bad[1][:200]), path)]
+
+# source pins: the C the Lean model mirrors (see tools/pins.py)
+PINS = [('printf/doprnti.c', None), ('printf/doprnt.c', None), ('printf/snprntffuns.c', None), ('printf/asprntffuns.c', None), ('printf/vasprintf.c', None), ('printf/doprntf.c', None), ('scanf/doscan.c', None)]
